@@ -10,7 +10,7 @@
    db.rs) skips the commit, so the counter stays >= 1, and the in-memory tables have already been
    changed.  What is proved below is the exact consequence of such a leak (the defect, for ALL later
    histories), that the property holds whenever the counter is restored, and (d). *)
-From Agdb Require Import Bytes FileWal FileWalProofs TxnNesting CrashProofs.
+From Agdb Require Import Bytes FileWal FileWalProofs TxnNesting CrashProofs CrashGuardProofs.
 Open Scope nat_scope.
 
 (* the defect, characterised: with the counter left at n >= 1 no later operation flushes, and closing
@@ -42,6 +42,34 @@ Theorem C32_reopen_is_a_flush_point :
     In (data (recover walrev_fixed (crash st (trace walrev_fixed st ops) k j))) (d0 :: flush_points st ops).
 Proof. exact crash_recovers_a_flush_point. Qed.
 Print Assumptions C32_reopen_is_a_flush_point.
+
+(* the three statements for the recovery WITH the position guard of apply_wal_record (recover_g; None = error):
+   the guard never fires on these logs, so nothing changes *)
+Theorem C32_leak_refuted_all_later_work_lost_guarded :
+  forall (d0 : bytes) (n : nat) (later : list sevent) (k j : nat),
+    1 <= n -> stays_open n later = true -> wp d0 (sd_ops n later) ->
+    let st := {| data := d0; wal := [] |} in
+    recover_g walrev_fixed (crash st (trace walrev_fixed st (sd_ops n later)) k j) = Some {| data := d0; wal := [] |}.
+Proof. exact leaked_transaction_loses_later_work_g. Qed.
+Print Assumptions C32_leak_refuted_all_later_work_lost_guarded.
+
+Theorem C32_flushed_work_is_kept_guarded_partial :
+  forall (d0 : bytes) (ops : list op),
+    wp d0 (ops ++ [OFlush]) ->
+    let st := {| data := d0; wal := [] |} in
+    let fin := run_calls st (trace walrev_fixed st (ops ++ [OFlush])) in
+    recover_g walrev_fixed fin = Some {| data := data fin; wal := [] |}.
+Proof. exact flushed_work_is_kept_g. Qed.
+Print Assumptions C32_flushed_work_is_kept_guarded_partial.
+
+Theorem C32_reopen_is_a_flush_point_guarded :
+  forall (d0 : bytes) (ops : list op) (k j : nat),
+    wp d0 ops ->
+    let st := {| data := d0; wal := [] |} in
+    exists r, recover_g walrev_fixed (crash st (trace walrev_fixed st ops) k j) = Some r /\
+              wal r = [] /\ In (data r) (d0 :: flush_points st ops).
+Proof. exact crash_recovers_a_flush_point_g. Qed.
+Print Assumptions C32_reopen_is_a_flush_point_guarded.
 
 (* non-vacuity of the leak theorem: a later, well-nested transaction under a leaked counter *)
 Example C32_leak_nonvacuous :
